@@ -11,6 +11,7 @@ EXTENDS Props, Randomization
 
 CONSTANTS
   Users,        \* e.g. {"a1","a2","a3"}
+  Spellings,    \* other spellings of Users' addresses usable in recipient-like fields, e.g. {"A1"} (Types!Acct)
   MsgTypes,     \* set of message type names enabled in this configuration
   Amts,         \* credit amounts used in message arguments, e.g. {0,1,2}
   Ticks,        \* block times (all > EpochTick)
@@ -196,8 +197,53 @@ ExpiryGenesis ==
      !.markets = {[id |-> 1, ct |-> "C", denom |-> "uregen"], [id |-> 2, ct |-> "C", denom |-> "uatom"]},
      !.seq     = [@ EXCEPT !.batch = 2, !.order = 3, !.market = 2]]
 
+\* ids beyond the zero-padded width and ids that are string prefixes of one another
+\* (C10 / C100, C10-100 / C10-1000), a second credit type, sequences about to widen
+\* (the next class of type C is C101, the next project of C10 is C10-1001, the next
+\* batch of C10-1000 is ...-1000), a basket that admits C10 only
+WideGenesis ==
+  LET b1 == BatchDenomOf("C10-100", 7, 8, 1)
+      b2 == BatchDenomOf("C10-1000", 7, 8, 999)
+      b3 == BatchDenomOf("C100-001", 5, 8, 1)
+      b4 == BatchDenomOf("BIO01-001", 7, 8, 1)
+  IN
+  [DefaultGenesis EXCEPT
+     !.ctypes   = @ \cup {[abbr |-> "BIO", name |-> "biodiversity", unit |-> "ha", prec |-> 6]},
+     !.classes  = {[key |-> 1, id |-> "C10", admin |-> "a1", meta |-> "m0", ct |-> "C"],
+                   [key |-> 2, id |-> "C100", admin |-> "a2", meta |-> "m0", ct |-> "C"],
+                   [key |-> 3, id |-> "BIO01", admin |-> "a1", meta |-> "m0", ct |-> "BIO"]},
+     !.issuers  = {[ck |-> 1, a |-> "a1"], [ck |-> 2, a |-> "a2"], [ck |-> 2, a |-> "a1"], [ck |-> 3, a |-> "a1"]},
+     !.cseq     = {[ct |-> "C", next |-> 101], [ct |-> "BIO", next |-> 2]},
+     !.projects = {[key |-> 1, id |-> "C10-100", admin |-> "a1", ck |-> 1, jur |-> "US", meta |-> "m0", ref |-> "r1"],
+                   [key |-> 2, id |-> "C10-1000", admin |-> "a1", ck |-> 1, jur |-> "US", meta |-> "m0", ref |-> ""],
+                   [key |-> 3, id |-> "C100-001", admin |-> "a2", ck |-> 2, jur |-> "US", meta |-> "m0", ref |-> "r1"],
+                   [key |-> 4, id |-> "BIO01-001", admin |-> "a1", ck |-> 3, jur |-> "US", meta |-> "m0", ref |-> ""]},
+     !.pseq     = {[ck |-> 1, next |-> 1001], [ck |-> 2, next |-> 2], [ck |-> 3, next |-> 2]},
+     !.batches  = {[key |-> 1, issuer |-> "a1", pk |-> 1, denom |-> b1, meta |-> "m0",
+                    start |-> 7, end |-> 8, issued |-> 6, open |-> TRUE, ck |-> 0],
+                   [key |-> 2, issuer |-> "a1", pk |-> 2, denom |-> b2, meta |-> "m0",
+                    start |-> 7, end |-> 8, issued |-> 6, open |-> FALSE, ck |-> 0],
+                   [key |-> 3, issuer |-> "a2", pk |-> 3, denom |-> b3, meta |-> "m0",
+                    start |-> 5, end |-> 8, issued |-> 6, open |-> TRUE, ck |-> 0],
+                   [key |-> 4, issuer |-> "a1", pk |-> 4, denom |-> b4, meta |-> "m0",
+                    start |-> 7, end |-> 8, issued |-> 6, open |-> FALSE, ck |-> 0]},
+     !.bseq     = {[pk |-> 1, next |-> 2], [pk |-> 2, next |-> 1000], [pk |-> 3, next |-> 2], [pk |-> 4, next |-> 2]},
+     !.bal      = {[a |-> "a1", bk |-> 1, t |-> 2, r |-> 0, e |-> 0],
+                   [a |-> "a2", bk |-> 1, t |-> 1, r |-> 1, e |-> 0],
+                   [a |-> "a1", bk |-> 2, t |-> 2, r |-> 0, e |-> 0],
+                   [a |-> "a2", bk |-> 3, t |-> 2, r |-> 0, e |-> 0],
+                   [a |-> "a1", bk |-> 3, t |-> 1, r |-> 0, e |-> 0],
+                   [a |-> "a1", bk |-> 4, t |-> 2, r |-> 0, e |-> 0]},
+     !.supply   = {[bk |-> 1, t |-> 3, r |-> 1, c |-> 0], [bk |-> 2, t |-> 2, r |-> 0, c |-> 0],
+                   [bk |-> 3, t |-> 3, r |-> 0, c |-> 0], [bk |-> 4, t |-> 2, r |-> 0, c |-> 0]},
+     !.baskets  = {[id |-> 1, denom |-> BasketDenomOf("C", "NCT"), name |-> "NCT", dar |-> FALSE,
+                    ct |-> "C", crit |-> NoCrit, curator |-> "a1"]},
+     !.bclasses = {[bid |-> 1, cid |-> "C10"]},
+     !.seq      = [@ EXCEPT !.class = 3, !.project = 4, !.batch = 4, !.basket = 1]]
+
 GenesisState ==
   CASE Genesis = "default" -> DefaultGenesis
+    [] Genesis = "wide"    -> WideGenesis
     [] Genesis = "class"   -> ClassGenesis
     [] Genesis = "batch"   -> BatchGenesis
     [] Genesis = "market"  -> MarketGenesis
@@ -225,7 +271,8 @@ Refs == IF MaxList = 1 /\ Cardinality(Users) < 3 THEN {"r1"} ELSE {"r1", "r2"}
 EndDeltas == IF MaxList = 1 /\ Cardinality(Users) >= 3 THEN {0, 1} ELSE {1}
 OfferedFees == {NoCoin} \cup {SomeCoin(d, n) : d \in FeeDenomsOffered, n \in CoinAmts}
 
-Issuance == {[to |-> u, t |-> t, r |-> r] : u \in Users, t \in Amts, r \in Amts}
+Rcpts == Users \cup Spellings
+Issuance == {[to |-> u, t |-> t, r |-> r] : u \in Rcpts, t \in Amts, r \in Amts}
 NoOriginSet == {NoOrigin}
 
 Msgs(s, T) ==
@@ -256,7 +303,7 @@ Msgs(s, T) ==
             : a \in Users, d \in BatchDenoms(s)}
     [] T = "Send" ->
          {[type |-> T, sender |-> a, recipient |-> b, credits |-> cs]
-            : a \in Users, b \in Users,
+            : a \in Users, b \in Rcpts,
               cs \in Seqs12({[denom |-> d, t |-> t, r |-> r]
                               : d \in BatchDenoms(s), t \in Amts, r \in Amts})}
     [] T = "Retire" ->
@@ -269,7 +316,7 @@ Msgs(s, T) ==
               cs \in Seqs12({[denom |-> d, amt |-> n] : d \in BatchDenoms(s), n \in Amts})}
     [] T = "UpdateClassAdmin" ->
          {[type |-> T, admin |-> a, class_id |-> c, new_admin |-> b]
-            : a \in Users, c \in ClassIds(s), b \in Users}
+            : a \in Users, c \in ClassIds(s), b \in Rcpts}
     [] T = "UpdateClassIssuers" ->
          {[type |-> T, admin |-> a, class_id |-> c, add |-> ad, remove |-> rm]
             : a \in Users, c \in ClassIds(s),
@@ -278,7 +325,7 @@ Msgs(s, T) ==
          {[type |-> T, admin |-> a, class_id |-> c, meta |-> "m1"] : a \in Users, c \in ClassIds(s)}
     [] T = "UpdateProjectAdmin" ->
          {[type |-> T, admin |-> a, project_id |-> p, new_admin |-> b]
-            : a \in Users, p \in ProjectIds(s), b \in Users}
+            : a \in Users, p \in ProjectIds(s), b \in Rcpts}
     [] T = "UpdateProjectMetadata" ->
          {[type |-> T, admin |-> a, project_id |-> p, meta |-> "m1"] : a \in Users, p \in ProjectIds(s)}
     [] T = "AddCreditType" ->
@@ -380,7 +427,7 @@ Msgs(s, T) ==
             : a \in Users, k \in BasketDenoms(s), n \in Amts \cup {3}, rt \in BOOLEAN}
     [] T = "UpdateCurator" ->
          {[type |-> T, curator |-> a, new_curator |-> b, denom |-> k]
-            : a \in Users, b \in Users, k \in BasketDenoms(s)}
+            : a \in Users, b \in Rcpts, k \in BasketDenoms(s)}
     [] T = "UpdateDateCriteria" ->
          {[type |-> T, authority |-> a, denom |-> k, crit |-> cr]
             : a \in Signers, k \in BasketDenoms(s), cr \in Crits}
@@ -428,6 +475,15 @@ ListField(T) ==
 \* Generation configurations use MaxList = 1, so Msgs(st, T) is the FULL domain
 \* of single-entry messages; longer lists are built here by concatenating the
 \* lists of two or three drawn messages (duplicates and repeated targets included).
+\* x is ONE field away from g: exactly one top-level field differs, and if that field is the
+\* list argument, both lists have one entry and the entries differ in exactly one field
+OneAway(g, x, lf) ==
+  LET D == {f \in DOMAIN g : g[f] # x[f]} IN
+  /\ Cardinality(D) = 1
+  /\ \A f \in D : f = lf =>
+        /\ Len(g[f]) = 1 /\ Len(x[f]) = 1
+        /\ Cardinality({h \in DOMAIN g[f][1] : g[f][1][h] # x[f][1][h]}) = 1
+
 GenNext ==
   /\ depth' = depth + 1
   /\ LET avail == {X \in MsgTypes : Msgs(st, X) # {}}
@@ -439,7 +495,22 @@ GenNext ==
            pick == IF good # {} /\ RandomElement(1..8) > 1 THEN good ELSE ms
            lf   == ListField(T)
            more == IF lf = "" THEN 0 ELSE <<0, 0, 0, 1, 1, 2>>[RandomElement(1..6)]
-       IN \E m \in RandomSubset(1, pick) :
+           mode == RandomElement(1..6)
+       IN
+       IF mode = 1 /\ good # {}
+       THEN \* NEAR MISS: a message the specification rejects that is one field away from one it
+            \* accepts (the boundary of a guard), alone or next to accepted entries of the same signer
+            \E g \in RandomSubset(1, good) :
+              LET near == {x \in ms \ good : OneAway(g, x, lf)}
+                  mates == {y \in good : SignerOf(y) = SignerOf(g)}
+                  how  == RandomElement(1..3)
+              IN IF near = {} THEN Step(g)
+                 ELSE \E x \in RandomSubset(1, near) : \E y \in RandomSubset(1, mates) :
+                        Step(IF lf = "" \/ how = 1 \/ SignerOf(x) # SignerOf(y) THEN x
+                             ELSE IF how = 2 THEN [y EXCEPT ![lf] = @ \o x[lf]]
+                             ELSE [x EXCEPT ![lf] = @ \o y[lf]])
+       ELSE
+       \E m \in RandomSubset(1, pick) :
           \* entries to append: mostly drawn from messages of the SAME signer that the specification
           \* accepts and that name something else than m does (so that long lists usually succeed
           \* and touch several rows); sometimes from anywhere
